@@ -200,7 +200,12 @@ impl CheckDef for Lossy {
         if !complete || !errs.is_empty() {
             // what kind of stall? F8: the last window-carrying datagram towards a blocked sender with wnd > 0 after wnd = 0 was dropped
             let (a, b) = (res.addrs[0], res.addrs[1]);
-            let sig = if c01::f7_signature(&res.log, a, b).is_some() || c01::f7_signature(&res.log, b, a).is_some() { c01::F7_SIG.to_string() } else { classify_stall(&res) };
+            if c01::f7_signature(&res.log, a, b).is_some() || c01::f7_signature(&res.log, b, a).is_some() {
+                // known finding F7 (a delivered probe re-cut after its ack was lost) makes the byte counts
+                // meaningless; it is C01's finding and is reported there
+                return Outcome::discard("F7 (probe re-cut) occurred in this run (reported by C01)");
+            }
+            let sig = classify_stall(&res);
             let detail = format!("by the virtual deadline ({} ms; {} datagrams dropped, fairness k) the transfer had not completed: A wrote {}/{} B read {} | B wrote {}/{} A read {} | B eof {} | scripts done {} | errors {:?}", sc.deadline_ms, res.dropped, c.ep[0].written, total_a, c.ep[1].read, c.ep[1].written, total_b, c.ep[0].read, c.ep[1].eof, res.scripts_done, errs);
             if !complete && errs.is_empty() && !trace {
                 // double-check the deadline formula: re-run with 4x the deadline
